@@ -445,8 +445,15 @@ impl Deb822 {
             inject(&mut builder, new_paragraph.0);
         }
 
+        let mut last_kind = None;
         for c in current {
             builder.token(c.kind().into(), c.as_token().unwrap().text());
+            last_kind = Some(c.kind());
+        }
+        // a comment on the last line of a file without a final newline still gets its line
+        // break, as it would inside a paragraph
+        if last_kind == Some(COMMENT) {
+            builder.token(NEWLINE.into(), "\n");
         }
 
         builder.finish_node();
